@@ -230,8 +230,9 @@ func c09Case(rt *rapid.T, rec *vt.Rec) {
 			h := rapid.IntRange(0, nHosts-1).Draw(rt, "host")
 			entered := make(chan struct{}, 4)
 			release := make(chan struct{})
+			heldAt := rapid.SampledFrom([]string{"SetNode", "CheckAndSaveNonce"}).Draw(rt, "heldAt")
 			s.ys.setHook(func(method string) error {
-				if method != "SetNode" {
+				if method != heldAt {
 					return nil
 				}
 				entered <- struct{}{}
@@ -251,14 +252,21 @@ func c09Case(rt *rapid.T, rec *vt.Rec) {
 				cdone <- ac2.c.agentSide.Call(ctx, &resp, "vipnode_connect", mustSign(a.id.key, "vipnode_connect", a.id.nodeID, n, req), a.id.nodeID, n, req)
 			}()
 			<-entered
-			s.model.connect(s.agents[h].id.nodeID, ac2.id, true, "geth", "")
+			if heldAt == "SetNode" {
+				// the registration has reached the registry: it counts as this host's most recent one (and ends with
+				// the connection)
+				s.model.connect(s.agents[h].id.nodeID, ac2.id, true, "geth", "")
+			}
+			// (held in the nonce check the request has registered nothing yet, and must not register anything once the
+			// connection is gone: nothing would ever unregister it. The host's earlier registration, if any, stands.)
 			s.closeConn(ac2)
 			synctest.Wait()
 			close(release)
 			<-cdone
 			s.ys.setHook(nil)
 			synctest.Wait()
-			logf("host %s registers on conn#%d, which closes while the registration is inside the store", s.agents[h].id.name, ac2.id)
+			logf("host %s registers on conn#%d, which closes while the request is inside the store (%s)", s.agents[h].id.name, ac2.id, heldAt)
+			classes["close-during-connect:"+heldAt] = true
 			classes["close-during-connect"] = true
 			classes["close-current"] = true
 		case "closeWithStoreFault":
